@@ -24,7 +24,7 @@ GROUPS = {"g1": ["h0", "h5"], "g2": ["h3", "h2"], "g3": ["g1", "h1"], "g4": ["h7
 
 
 def hook_def(name, allow_failure=None, extra=None):
-    args = ["hookrec", name] + ["%s={{ %s }}" % (v, v) for v in ALL_VARS] + ["envtpl={{ env.V_ALL }}/{{ env.V_GD }}"]
+    args = ["hookrec", name] + ["%s={{ %s }}" % (v, v) for v in ALL_VARS] + ["envtpl={{ env.V_ALL }}/{{ env.V_GD }}/{{ env.V_D }}/{{ env.V_ID }}"]
     h = {"name": name, "type": PALETTE[name], "cmd": "@EXE@", "args": args}
     if allow_failure is not None:
         h["allow_failure"] = allow_failure
@@ -224,7 +224,7 @@ def judge(req, obs):
                     if env.get(k) != v:
                         add("hook-env-precedence", "%s|%s" % ("challenge" if etype.startswith("challenge-") else ("file" if etype.startswith("file-") else "post-operation"), k),
                             "%s=%s (identifier over certificate over global over daemon)" % (k, v), "%s=%r" % (k, env.get(k)))
-                if args.get("envtpl") != "%s/%s" % (want_env["V_ALL"], want_env["V_GD"]):
+                if args.get("envtpl") != "%s/%s/%s/%s" % (want_env["V_ALL"], want_env["V_GD"], want_env["V_D"], want_env["V_ID"]):
                     add("hook-env-precedence", "template-env", "env template variable follows the same precedence", "%r" % args.get("envtpl"))
     # clean hooks carry the same variables as the challenge hooks except is_clean_hook
     chal = [(h, p) for h, p in zip(hooks, pred) if p[2] == "chal"]
